@@ -1,4 +1,4 @@
-import json, os, re, time
+import json, os, re, shutil, subprocess, time
 import runner
 from runner import CLAIMED, CheckError, VERIF, REPO
 
@@ -469,6 +469,16 @@ def directed_c01():
     D.append(("switch_clause_ends_in_if_with_break_behind_yield", [("for", ("decl", "i", "0"), "i < n + 1", ("inc", "i"), [("switch", None, "i & 1", [("0", [E(1), ("if", "g1", [Y("i + 1"), ("if", "g2", [("break",)], None), Y("i + 2")], None)]), ("1", [E(2)])], None), Y("i + 3")]), Y("a")]))
     D.append(("switch_clause_ends_in_if_else_with_break_behind_yield", [("switch", None, "a & 1", [("0", [("if", "g1", [Y("a + 1"), ("break",)], [Y("a + 2"), ("if", "g2", [("break",)], None), E(1)])])], [E(2)]), Y("b + 3")]))
     D.append(("tswitch_clause_ends_in_if_with_break_behind_yield", [("raw", "var t any = a"), ("for", ("decl", "i", "0"), "i < n", ("inc", "i"), [("tswitch", "v", "t", [("int", [("if", "g1", [Y("v + i"), ("break",)], None)])], None), Y("i + 2")]), Y("b")]))
+    D.append(("explicitly_instantiated_yields", [("yield", "a + 1", "inst"), E(1), ("for", ("decl", "i", "0"), "i < n", ("inc", "i"), [("yield", "i + 2", "inst"), ("if", "g1", [("yieldfrom", "H2(i)", "inst")], None)]), ("yield", "b + 3", "inst")]))
+    # a delimited switch that ends a nested block (not the function) and is followed by more statements
+    D.append(("breakable_switch_last_in_if_body", [("if", "g1", [E(1), ("switch", None, "a & 1", [("0", [Y("a + 1"), ("if", "g2", [("break",)], None), Y("a + 2")])], [E(2)])], None), Y("b + 3"), E(3)]))
+    D.append(("breakable_switch_last_in_block", [("block", [Y("a"), ("switch", None, "b & 1", [("1", [Y("b + 1"), ("break",), E(1)])], None)]), Y("a + 2")]))
+    D.append(("breakable_switch_last_in_outer_clause", [("switch", None, "a & 1", [("0", [E(1), ("switch", None, "b & 1", [("0", [Y("b + 1"), ("if", "g1", [("break",)], None), Y("b + 2")])], None)])], [E(2)]), Y("a + 3")]))
+    D.append(("breakable_switch_last_in_else", [("if", "g1", [E(1)], [("switch", None, "a & 1", [("0", [("yieldfrom", "H2(a)"), ("break",)])], [Y("b")])]), Y("a + 4")]))
+    # a post statement that is a call whose callee is computed: evaluated after every iteration
+    D.append(("post_call_with_computed_callee", [("raw", "steps := []func(){func() { rt.Emit(40, a) }, func() { rt.Emit(41, b) }}"), ("decl", "i", "0"), ("for", None, "i < n", ("raw", "steps[i&1]()"), [Y("i + 1"), ("inc", "i")]), Y("a")]))
+    D.append(("post_call_callee_returned_by_call", [("raw", "pick := func() func() {\n\trt.Emit(rt.EFF, 42)\n\treturn func() { rt.Emit(rt.EFF, 43) }\n}"), ("decl", "i", "0"), E(1), Y("b"), ("for", None, "i < n", ("raw", "pick()()"), [("inc", "i"), Y("i + 1")]), Y("a")]))
+    D.append(("post_call_reassigned_callee", [("raw", "f := func() { rt.Emit(rt.EFF, 44) }"), ("decl", "i", "0"), ("for", None, "i < n", ("raw", "f()"), [("inc", "i"), Y("i + 1"), ("raw", "f = func() { rt.Emit(40, i) }")]), Y("a")]))
     D.append(("tagless_switch_in_loop_with_continue", [("for", ("decl", "i", "0"), "i < n", ("inc", "i"), [("switch", None, None, [("i == 0", [Y("a + 1")]), ("i > 1", [Y("i + 2"), ("continue",)])], [E(1)]), Y("i + 100")]), Y("b")]))
     D.append(("tagless_switch_with_init_last_in_loop", [("for", ("decl", "i", "0"), "i < n", ("inc", "i"), [("switch", ("decl", "x", "i + a"), None, [("x > b", [Y("x + 1")]), ("g1", [E(1)])], None)]), Y("b")]))
     D.append(("for_without_condition", [("for", ("decl", "i", "0"), None, ("inc", "i"), [("if", "i >= n", [("break",)], None), Y("i + 1"), ("if", "g1", [("continue",)], None), E(1)]), Y("a")]))
@@ -654,11 +664,11 @@ def corpus_run(ctx, fam, build, K, extra_adv, nlo=-1, nhi=3, stage1=False, secon
 
 
 def corpus_check(ctx, fam, build, K, extra_adv, level_extra, assumptions, floors, nlo=-1, nhi=3, stage1=False, second_pass=None, ref_tree="src",
-                 unbuildable_is_violation=False, batch=None, more_runs=(), surviving_stub_is_violation=False):
+                 unbuildable_is_violation=False, batch=None, more_runs=(), surviving_stub_is_violation=False, extra_violations=0):
     runs = [corpus_run(ctx, fam, build, K, extra_adv, nlo, nhi, stage1, second_pass, ref_tree, unbuildable_is_violation, batch, surviving_stub_is_violation)] + list(more_runs)
     main = runs[0]
     res = main["res"]
-    new, known, replayed, mism, details, fe_details = 0, [], 0, 0, [], []
+    new, known, replayed, mism, details, fe_details = extra_violations, [], 0, 0, [], []
     decided_tags, programs, compiled, rejected, unbuildable = {}, 0, 0, {}, {}
     sv_mism_extra, sv_extra = 0, 0
     ratios = []
@@ -867,6 +877,7 @@ def directed_c05():
     D.append(("continue_in_tswitch_yieldfrom_post", [("raw", "var t any = a"), ("decl", "i", "0"), ("for", None, "i < n", ("yieldfrom", "H2(i)"), [("inc", "i"), ("tswitch", None, "t", [("int", [("if", "g1", [("continue",)], None)])], None), Y("i + 1")]), Y("b")]))
     D.append(("switch_clause_ends_in_if_break_behind_delegation", [("for", ("decl", "i", "0"), "i < n + 1", ("inc", "i"), [("switch", None, "i & 1", [("0", [("if", "g1", [YF("H2(i)"), ("break",)], None)])], [("eff", 765)]), Y("i + 1")]), Y("a")]))
     D.append(("switch_clause_ends_in_if_else_break_behind_delegation_no_loop", [("switch", None, "a & 1", [("0", [("eff", 766), ("if", "g1", [YF("H2(a)"), ("if", "g2", [("break",)], None), Y("a + 1")], [Y("b")])])], None), Y("b + 99")]))
+    D.append(("breakable_switch_last_in_if_body_delegation", [("if", "g1", [("switch", None, "a & 1", [("0", [YF("H2(a)"), ("if", "g2", [("break",)], None), Y("a + 2")])], None)], None), YF("H2(b)"), Y("b + 3")]))
     D.append(("same_iter_twice", [("raw", "it := H1(a)"), YF("it"), YF("it"), Y("b")]))
     return D
 
@@ -977,6 +988,14 @@ def plan_C03(ctx):
             if name.startswith("range_var_captured"):
                 tags.add("range-var-captured-across-iterations")  # go < 1.22 sources: one variable per loop (F7)
             corp.add(gen.Program("d_%s" % name, body, helpers=C01_HELPERS if "H2(" in repr(body) else "", named_result=(n % 2 == 0), family="scp", tags=tags))
+            n += 1
+        for name, body in (("const_shadowed_by_local_in_loop", [("raw", "csX := a"), ("for", ("decl", "i", "0"), "i < n", ("inc", "i"), [("yield", "csX"), ("assign", "csX", "csX + b")]), ("yield", "csX + 1")]),
+                           ("const_shadowed_by_local_closure_update", [("raw", "csX := a\nbump := func() { csX += b }"), ("for", ("decl", "i", "0"), "i < n", ("inc", "i"), [("yield", "csX"), ("raw", "bump()")]), ("yield", "csX + 1")])):
+            pid = "d_%s" % name
+            ident = "cs_%s" % name
+            body = [tuple(x.replace("csX", ident) if isinstance(x, str) else x for x in st) if st[0] != "for" else
+                    ("for", st[1], st[2], st[3], [tuple(x.replace("csX", ident) if isinstance(x, str) else x for x in b) for b in st[4]]) for st in body]
+            corp.add(gen.Program(pid, body, helpers="// a package-level constant with the name of a local variable of the generator\nconst %s = 7\n" % ident, named_result=True, family="scp", tags={"directed:" + name}))
             n += 1
         want = ctx.q(400, 2200)
         tries = 0
@@ -1115,8 +1134,58 @@ def eta_programs():
     return out
 
 
+def nested_packages_c07(ctx, K):
+    """a source tree with a nested package directory that re-uses the file name of its parent: both
+    stages must mirror the tree. Returns (violations, evidence)."""
+    driver = runner.build_driver(ctx)
+    ctx.driver_bin = driver
+    progs = {"c07_nested": gen.Program("nest", [("yield", "a + 1"), ("eff", 1), ("yield", "b + 2")], named_result=True),
+             "c07_nested/v2": gen.Program("nest", [("yield", "a + 1001"), ("yield", "b + 1002"), ("eff", 2), ("yield", "a")], named_result=True)}
+    for d, p in progs.items():
+        sd = os.path.join(ctx.ws, "src", d)
+        os.makedirs(sd, exist_ok=True)
+        with open(os.path.join(sd, "zz_header.go"), "w") as f:
+            f.write(gen.HEADER % {"pkg": "corp"})
+        with open(os.path.join(sd, "gen_nest.go"), "w") as f:
+            f.write(corpus.import_style("nest", p.source(K)))
+    src = os.path.join(ctx.ws, "src", "c07_nested")
+    info = {"layout": ["c07_nested/gen_nest.go", "c07_nested/v2/gen_nest.go"], "problems": []}
+    for mode, tree in (("compile", "out"), ("stage1", "unopt")):
+        dst = os.path.join(ctx.ws, tree, "c07_nested")
+        p = subprocess.run([driver, mode, src, dst], env=runner.GOENV, stdout=subprocess.PIPE, stderr=subprocess.STDOUT, text=True, cwd=ctx.ws)
+        shutil.rmtree(dst + "_tmp", ignore_errors=True)
+        if '"ok":true' not in p.stdout.replace(" ", ""):
+            raise CheckError("the compiler rejected the nested-package layout: " + p.stdout[-500:])
+    viol = 0
+    for d in progs:
+        o, u = os.path.join(ctx.ws, "out", d, "gen_nest.go"), os.path.join(ctx.ws, "unopt", d, "gen_nest.go")
+        if os.path.exists(u) and not os.path.exists(o):
+            viol += 1
+            info["problems"].append("the optimising stage wrote no %s/gen_nest.go although the unoptimised stage did" % d)
+            path = runner.save_replay(ctx, "nested" + d, [], {"property": ctx.pid, "kind": "front-end-refutation (not a solver verdict)", "what": info["problems"][-1]})
+            print("VIOLATION property=%s replay=%s" % (ctx.pid, path))
+    if viol:
+        return viol, info
+    files = [os.path.join(ctx.ws, "unopt", d, "gen_nest.go") for d in progs]
+    runner.sh([runner.build_engine(), "fiximports"] + files)
+    pairs = []
+    for d in progs:
+        pairs += ["-pair", "verifws/unopt/%s=verifws/out/%s" % (d, d)]
+    res = runner.run_engine(ctx, pairs + engine_common(ctx) + ["-refplain"], name="result_nested")
+    for d in res["drivers"]:
+        if d["status"] == "violated":
+            viol += 1
+            f = d["failures"][0]
+            path = runner.save_replay(ctx, "nested" + d["name"], [], {"property": ctx.pid, "driver": d["name"], "kind": f["kind"], "msg": f["msg"], "model": f["model"], "logs": f.get("logs"),
+                                                                       "what": "optimised and unoptimised output of a package in a nested-directory layout behave differently"})
+            print("VIOLATION property=%s replay=%s" % (ctx.pid, path))
+    info["drivers"] = {d["name"]: d["status"] for d in res["drivers"]}
+    return viol, info
+
+
 def plan_C07(ctx):
     K = ctx.q(6, 12)
+    nested_viol, nested_info = nested_packages_c07(ctx, K)
 
     def build(corp):
         counts = build_c01_corpus(ctx, corp, ctx.q(137, 2000), ctx.q(320, 1500), sample_seed_off=7)
@@ -1166,12 +1235,13 @@ def plan_C07(ctx):
 
     extra = {
         "bounds": {"advances_K": K, "loop_bound_n": "[-1,3]", "outside": "program shapes not generated; optimiser behaviour on files the rewriter does not produce"},
+        "nested_package_layout": nested_info,
         "explanation": "reference = output of stage 1 only (VerifRewriteStage hook: the same rewriteAllFiles and printer as Compile) with its unused co import removed; implementation = output of the unmodified rewriter.Compile; both are generated Go linked with the real seq, executed symbolically on the same path; flat log equality incl. advance markers and rt.Eff events. Build clause: a program whose optimised output fails go/types while the unoptimised one passes is a front-end refutation.",
     }
     return corpus_check(ctx, "c07", build, K, 1, extra,
                         ["both worlds are plain Go (no coroutine intrinsics)", PROGRAM_DIM,
                          "the unoptimised world is the hook's output after removing the co import it no longer uses (go/types would otherwise reject it; production never builds that stage)"],
-                        floors={"drivers_holds": ctx.q(200, 2000), "decided_ratio_min": 0.8}, stage1=True, ref_tree="unopt")
+                        floors={"drivers_holds": ctx.q(200, 2000), "decided_ratio_min": 0.8}, stage1=True, ref_tree="unopt", extra_violations=nested_viol)
 
 
 CLAIMED["C07"] = plan_C07
@@ -1372,7 +1442,8 @@ def plan_C14(ctx):
     # iterators started from one shared seq term (public seq API; compiled generators build a term per call)
     nterms = 8
     with open(os.path.join(ctx.ws, "rt/c14/zz_drivers.go"), "w") as f:
-        f.write("package c14\n\n" + "\n".join("func Drive_shared_%d() { DriveShared(%d, %d, %d) }" % (ti, ti, k, m) for ti in range(nterms)) + "\n")
+        f.write("package c14\n\n" + "\n".join("func Drive_shared_%d() { DriveShared(%d, %d, %d) }" % (ti, ti, k, m) for ti in range(nterms)) + "\n"
+                + "func Drive_send_echo() { DriveSend(0, 3) }\nfunc Drive_send_relay() { DriveSend(1, 3) }\n")
     res_rt = runner.run_engine(ctx, ["-harness", "verifws/rt/c14"] + args, name="result_rt")
     for d in res_rt["drivers"]:
         d["_rt"] = True
